@@ -12,14 +12,15 @@ import tempfile
 
 import numpy as np
 
-from .. import cover, gen, itpspec, ref
+from .. import carrier, cover, gen, itpspec, ref
 
 LEVEL = 'exploration'
 JOBS = {'quick': 2, 'thorough': 16}
 REQUIRED_MONITORS = ('topology_vs_truth', 'connectivity_vs_unionfind', 'copy_isolation')
 REQUIRED_CLASSES = ('include-target-exists', 'colliding-number-strings', 'copy:after-modification', 'numbering:gaps', 'numbering:offset', 'bonds-three-way', 'decorated', 'kind:forest', 'kind:cyclic', 'kind:disconnected-cyclic', 'bonds:exactly-n-1-disconnected', 'conditional-block-with-else',
                     'kind:chain', 'long-chain', 'multi-residue', 'connected:yes', 'connected:no',
-                    'repeated-section', 'are_connected:Molecule.atoms', 'shipped')
+                    'repeated-section', 'are_connected:Molecule.atoms', 'shipped', 'carrier:handle', 'carrier:handle-relative-then-chdir',
+                    'carrier:handle-newline-untranslated', 'carrier:relative-path')
 RULE = ('generated topology files: graph kind x size (1..3000) x atom numbering (plain/offset/gaps) x bond split over '
         'bonds/constraints/pairs x decorations x repeated sections; plus the shipped topologies (self-consistency). '
         'Non-trivial: at least one bond. distinct = distinct (kind, size bucket, numbering, split, decorated, repeated, multi-residue)')
@@ -64,14 +65,28 @@ def cases(ctx):
     yield {'kind': 'shipped'}
 
 
+def _decoy():
+    p = os.path.join(_tmp['dir'], f'decoy{os.getpid()}.itp')
+    if not os.path.exists(p):
+        with open(p, 'w') as fh:
+            fh.write('[ moleculetype ]\nDECOY 1\n\n[ atoms ]\n1 X 1 DEC D1 1 0.0\n2 X 1 DEC D2 2 0.0\n\n[ bonds ]\n1 2 1 0.1 100\n')
+    return p
+
+
 def check_against_truth(ctx, path, truth, label):
     from gaddlemaps.parsers import read_topology
     from gaddlemaps.components import MoleculeTop, are_connected
     w = {'file': label, 'text_head': open(path).read()[:1500], 'classes': sorted(truth['classes'])}
     rep = 'repeated' if any(c.startswith('repeated-section:') and not c.endswith('dihedrals') for c in truth['classes']) else 'plain'
     try:
-        name, atoms, bonds = read_topology(path)
-        mt = MoleculeTop(path)
+        # the same file handed over as a path, a relative name, or an open handle (see carrier.py); a decoy topology of
+        # the same bare name waits in the directory the process moves to after opening a relative name
+        k1, k2 = carrier.next_kind(ctx), carrier.next_kind(ctx)
+        w['carriers'] = [k1, k2]
+        with carrier.carried(path, k1, decoy=_decoy()) as f1:
+            name, atoms, bonds = read_topology(f1)
+        with carrier.carried(path, k2, decoy=_decoy()) as f2:
+            mt = MoleculeTop(f2)
     except Exception as exc:  # noqa
         ctx.violation(f'reader-raises:{type(exc).__name__}:{rep}', f'{type(exc).__name__}: {str(exc)[:200]}', witness=w)
         return None
